@@ -706,6 +706,25 @@ fn brakedown_case(ctx: &mut Ctx, c: usize, poly_len: usize) {
             return;
         }
     };
+    // every ROW of every sparse matrix of the code carries exactly `d` non-zero entries in distinct columns (that is
+    // what `make_mat` samples, and what the code's distance rests on): a message symbol that feeds no parity
+    // symbol changes one codeword position only
+    for (which, mats) in [("A", &mp.a_mats), ("B", &mp.b_mats)] {
+        for (lvl, sm) in mats.iter().enumerate() {
+            let mut per_row = vec![0usize; sm.n];
+            let mut ok = sm.ind_ptr.len() == sm.m + 1 && sm.col_ind.len() == sm.val.len() && sm.val.iter().all(|v| !v.is_zero());
+            for r in &sm.col_ind {
+                if *r < sm.n { per_row[*r] += 1 } else { ok = false }
+            }
+            let want = sm.d.min(sm.m);
+            if !ok || per_row.iter().any(|c| *c != want) {
+                let bad: Vec<usize> = per_row.iter().enumerate().filter(|(_, c)| **c != want).map(|(i, _)| i).take(5).collect();
+                ctx.rep.expect_fail(&id, "brakedown/sparse-matrix-row-degree",
+                    &format!("matrix {}[{}] ({} x {}, d = {}): rows {:?} do not carry exactly {} non-zero entries", which, lvl, sm.n, sm.m, sm.d, bad, want),
+                    format!("# BrakedownPCParams::default(rng, {}, ..): matrix {}[{}]\n# rerun: .build/cargo/debug/pcv-harness C13 --only {}\n", poly_len, which, lvl, id));
+            }
+        }
+    }
     let _ = (mp.sec_param, mp.alpha, mp.beta, mp.rho_inv, mp.base_len, mp.n, mp.check_well_formedness);
     let _ = (&mp.leaf_hash_param, &mp.two_to_one_hash_param, &mp.col_hash_params);
     let m = mp.m;
@@ -1008,5 +1027,42 @@ fn unusable_parameters(ctx: &mut Ctx) {
         let pp = LigeroPCParams::<Fr, MTConfig, ColH>::new(128, rho, true, (), (), ());
         let r = guarded(|| UniLigeroPC::trim(&pp, 1, 0, None).map(|_| ()).map_err(|e| format!("{:?}", e)));
         verdict(ctx, format!("C13/unusable/bls/uni-trim/{}", rho), &format!("UnivariateLigero::trim with rho_inv {} over BLS12-381 Fr (two-adicity 32)", rho), r);
+    }
+}
+
+/// the row-degree law of Brakedown's sparse matrices (see `brakedown_case`), callable from other properties
+pub fn brakedown_structure(ctx: &mut Ctx, prop: &str) {
+    for (c, nv) in [6usize, 9, 10].iter().enumerate() {
+        let id = format!("{}/brakedown-matrix-structure/{}", prop, nv);
+        if !ctx.selected(&id) {
+            continue;
+        }
+        let mut rng = rng_for(ctx.seed, "brakedown-matrix-structure", c as u64);
+        let poly_len = 1usize << nv;
+        let pp: BdParams = match guarded(|| BdParams::default(&mut rng, poly_len, true, (), (), ())) {
+            Ok(p) => p,
+            Err(_) => continue,
+        };
+        let mp: MBrakedownParams = match mirror(&pp) {
+            Ok(x) => x,
+            Err(_) => continue,
+        };
+        for (which, mats) in [("A", &mp.a_mats), ("B", &mp.b_mats)] {
+            for (lvl, sm) in mats.iter().enumerate() {
+                let mut per_row = vec![0usize; sm.n];
+                let mut ok = sm.ind_ptr.len() == sm.m + 1 && sm.col_ind.len() == sm.val.len() && sm.val.iter().all(|v| !v.is_zero());
+                for r in &sm.col_ind {
+                    if *r < sm.n { per_row[*r] += 1 } else { ok = false }
+                }
+                let want = sm.d.min(sm.m);
+                if !ok || per_row.iter().any(|c| *c != want) {
+                    let bad: Vec<usize> = per_row.iter().enumerate().filter(|(_, c)| **c != want).map(|(i, _)| i).take(5).collect();
+                    ctx.rep.expect_fail(&id, "brakedown/sparse-matrix-row-degree",
+                        &format!("matrix {}[{}] ({} x {}, d = {}): rows {:?} do not carry exactly {} non-zero entries (a message symbol without parity: the code has distance 1 there)", which, lvl, sm.n, sm.m, sm.d, bad, want),
+                        format!("# BrakedownPCParams::default(rng, {}, ..): matrix {}[{}]\n# rerun: .build/cargo/debug/pcv-harness {} --only {}\n", poly_len, which, lvl, prop, id));
+                }
+            }
+        }
+        ctx.rep.case(&format!("brakedown matrices nv={} levels={} row degrees", nv, mp.a_mats.len()), Some(format!("brakedown-structure/{}", nv)));
     }
 }
